@@ -1,6 +1,6 @@
 #!/bin/bash
 # runs the repo's pinned test suite (guard off = repo as is) and prints pass/fail counts
-cd /repo && GOFLAGS=-mod=mod GOPROXY=off GOSUMDB=off GOTOOLCHAIN=local go test -vet=off -count=1 -timeout 25m -json ./... 2>/dev/null | python3 -c "
+cd /repo && before=$(ls logger/logfile/logs 2>/dev/null) && GOFLAGS=-mod=mod GOPROXY=off GOSUMDB=off GOTOOLCHAIN=local go test -vet=off -count=1 -timeout 25m -json ./... 2>/dev/null | python3 -c "
 import sys,json
 want=set(json.load(open('/root/.vp/BASELINE.json'))['stable_pass'])
 res={}
@@ -14,3 +14,7 @@ print('baseline: %d/%d stable tests pass'%(len(want)-len(bad),len(want)))
 for b in bad: print('  NOT PASSING',b,res.get(b))
 sys.exit(1 if bad else 0)
 "
+rc=$?
+# remove log files the test run created
+for f in $(ls /repo/logger/logfile/logs 2>/dev/null); do echo "$before" | grep -qx "$f" || rm -f "/repo/logger/logfile/logs/$f"; done
+exit $rc
